@@ -160,7 +160,16 @@ def gen_fixed_layout(rng: random.Random):
         # function (its line starts with `def`), a one-line function under a decorator that holds a lambda: right or raise
         b = body_for(op1, rng, v1).replace(chr(10), ' ')
         kind = rng.choice(["lambda-in-one-line-def", "lambda-in-one-line-def", "decorated-def", "lambda-in-one-line-method",
-                           "same-name-def-elsewhere", "same-name-def-elsewhere"])
+                           "same-name-def-elsewhere", "same-name-def-elsewhere", "continuation-left-of-def", "continuation-left-of-def"])
+        if kind == "continuation-left-of-def":
+            # an indented one-statement function whose return expression continues on a line indented LESS than its `def`
+            # (legal inside brackets): cutting the def's indentation off every line eats the start of that line
+            deep = " " * rng.choice([8, 12])
+            shallow = " " * rng.choice([0, 2, 4])
+            other = rng.choice(["eta_value", "phi_index", "run_number"])
+            text = (f"def build(ds):\n    if True:\n{deep}def sel({v1}):\n{deep}    return ({v1}.pt +\n{shallow}{v1}.{other})\n"
+                    f"{deep}return ds.Select(sel)\n")
+            return text, "any"
         if kind == "same-name-def-elsewhere":
             # the passed one-line function is a local def (or a method); functions of the SAME NAME with another body stand
             # above and below it in the file, at other nesting depths (seed C03-w7-2)
